@@ -7,6 +7,8 @@ import Mathlib.Data.Rat.Defs
 import Mathlib.Algebra.Order.Field.Basic
 import Mathlib.Algebra.Order.Field.Power
 import Mathlib.Algebra.Order.Ring.Abs
+import Mathlib.Algebra.Order.Field.Rat
+import Mathlib.Data.Rat.Cast.Order
 import Mathlib.Algebra.Ring.Parity
 import Mathlib.Tactic.Ring
 import Mathlib.Tactic.Linarith
@@ -39,35 +41,43 @@ def CanonFin (x : Mpf) : Prop :=
 
 instance (x : Mpf) : Decidable (CanonFin x) := by unfold CanonFin; infer_instance
 
+section format
+variable {K : Type*} [Field K] [LinearOrder K] [IsStrictOrderedRing K]
+
+/-- the value of a finite raw mpf in an arbitrary ordered field (`val` is the case `K = ℚ`) -/
+def valK (K : Type*) [Field K] (x : Mpf) : K := (-1 : K) ^ x.sign * (x.man : K) * (2 : K) ^ x.exp
+
 /-- `y` is representable with a `p`-bit mantissa (exponent unbounded) -/
-def Repb (p : ℕ) (y : ℚ) : Prop := ∃ (m : ℤ) (e : ℤ), |m| < 2 ^ p ∧ y = m * (2 : ℚ) ^ e
+def Repb (p : ℕ) (y : K) : Prop := ∃ (m : ℤ) (e : ℤ), |m| < 2 ^ p ∧ y = (m : K) * (2 : K) ^ e
 
 /-- round toward -∞: the greatest representable value `≤ x` -/
-def IsRoundF (p : ℕ) (x y : ℚ) : Prop :=
+def IsRoundF (p : ℕ) (x y : K) : Prop :=
   Repb p y ∧ y ≤ x ∧ ∀ z, Repb p z → z ≤ x → z ≤ y
 
 /-- round toward +∞: the least representable value `≥ x` -/
-def IsRoundC (p : ℕ) (x y : ℚ) : Prop :=
+def IsRoundC (p : ℕ) (x y : K) : Prop :=
   Repb p y ∧ x ≤ y ∧ ∀ z, Repb p z → x ≤ z → y ≤ z
 
 /-- `z` has a strictly smaller 2-adic valuation than `y` ("y is the even one of the two"):
 on the scale where `z` is an odd integer, `y` is an even integer. -/
-def EvenerThan (y z : ℚ) : Prop :=
-  ∃ (a b : ℤ) (E : ℤ), a % 2 = 1 ∧ z = a * (2 : ℚ) ^ E ∧ y = 2 * b * (2 : ℚ) ^ E
+def EvenerThan (y z : K) : Prop :=
+  ∃ (a b : ℤ) (E : ℤ), a % 2 = 1 ∧ z = (a : K) * (2 : K) ^ E ∧ y = 2 * (b : K) * (2 : K) ^ E
 
 /-- round to nearest, ties to even: no representable value is closer, and a representable value
 at the same distance is either `y` itself or has the odd mantissa of the two. -/
-def IsRoundN (p : ℕ) (x y : ℚ) : Prop :=
+def IsRoundN (p : ℕ) (x y : K) : Prop :=
   Repb p y ∧ ∀ z, Repb p z → (|x - y| < |x - z| ∨ (|x - y| = |x - z| ∧ (z = y ∨ EvenerThan y z)))
 
 /-- the five rounding modes -/
-def IsRound (p : ℕ) (rnd : Rnd) (x y : ℚ) : Prop :=
+def IsRound (p : ℕ) (rnd : Rnd) (x y : K) : Prop :=
   match rnd with
   | .f => IsRoundF p x y
   | .c => IsRoundC p x y
   | .d => if 0 ≤ x then IsRoundF p x y else IsRoundC p x y
   | .u => if 0 ≤ x then IsRoundC p x y else IsRoundF p x y
   | .n => IsRoundN p x y
+
+end format
 
 /-- The contract of a rounded operation: canonical finite result, exact when `prec = 0`,
 otherwise the correctly rounded value with at most `prec` mantissa bits. -/
